@@ -100,9 +100,10 @@ CHECKS = {
     'C17': dict(
         level='exploration',
         technique='runtime monitoring: input-form differential, '
-                  'PYTHONHASHSEED sweep in fresh interpreters with offline '
-                  'digest comparison, interleaving projection of two edit '
-                  'scripts, object-sharing check, global-state sentinel',
+                  'PYTHONHASHSEED sweep and parse-order sweep in fresh '
+                  'interpreters with offline digest comparison, interleaving '
+                  'projection of two edit scripts, object-sharing check, '
+                  'global-state sentinel',
         text='All input forms gave identical results; 8 (quick) / 64 '
              '(thorough) hash seeds gave identical digests on the corpus '
              '(incl. every sizing prefix x delimiter); all 20 interleavings '
@@ -139,16 +140,22 @@ CHECKS = {
         level='fault_enumeration',
         technique='runtime monitoring: outcome classifier + in-situ progress '
                   'contracts (tokenizer rounds, read_expr cursor) + reader '
-                  'step budget + watchdog, over exhaustively enumerated short '
-                  'strings, fault-injected documents and nesting towers, both '
-                  'tolerance modes',
+                  'step budget + loop-iteration budget (sys.monitoring JUMP '
+                  'events) + nesting-growth oracle + watchdog, over '
+                  'exhaustively enumerated short strings, fault-injected '
+                  'documents and nesting towers, both tolerance modes',
         text='Every enumerated/faulted input in both modes ended in a tree or '
              'a diagnostic raised by the reader; no internal exception leaked; '
-             'every tokenizer round and reader call advanced its cursor and '
-             'reader calls stayed within 500+2n^2 (towers to depth 40).',
+             'every tokenizer round and reader call advanced its cursor, '
+             'reader calls stayed within 500+2n^2 and loop iterations within '
+             '50000+3000n+30n^2 (towers to depth 40); reader calls of every '
+             'nesting shape built from <= 2 fragments grew at most 8x from '
+             'depth 8 to 12 - except the recorded known finding.',
         note='Termination is restated as bounded progress; the wall-clock '
-             'alarm alone is inconclusive.',
-        design_ref='4/C06'),
+             'alarm alone is inconclusive. Known finding: '
+             'tolerant-end-argument-reparse (exponential re-parse of '
+             'mismatched \\end arguments in tolerant mode).',
+        design_ref='4/C06, 2.2 (P-loops), 8.2'),
     'C07': dict(
         level='fault_enumeration',
         technique='runtime monitoring: strict/tolerant differential, '
